@@ -33,12 +33,24 @@ func runC22(c *eng.Ctx) {
 			return eng.CallMethodName(l) == "Store" && f.UnderCond(l, "lastSeriesID.Load()", "<")
 		})
 		f.Has("R2", wr, 2) // the series-record case and the tombstone-record case
+		// a duplicate series record (created == false) raises the counter just like a new one: its ref was issued once
+		f.Only("R2", wr, "does not depend on whether the record created a series", func(l eng.Loc) bool { return !f.UnderAnyArm(l, "created") })
+		f.Only("R2", wr, "stores the ref found in the record", func(l eng.Loc) bool {
+			a := eng.CallArgsText(l)
+			return len(a) == 1 && (a[0] == "uint64(walSeries.Ref)" || a[0] == "uint64(s.Ref)")
+		})
 		s := c.Fn("tsdb:Head.loadChunkSnapshot").InnerClosure("restore", wr)
 		s.Only("R1", wr, "is a CompareAndSwap from the loaded value", func(l eng.Loc) bool { return eng.CallMethodName(l) == "CompareAndSwap" })
 		// fast start-up restores the counter before any series exists
 		i := c.Fn("tsdb:Head.Init")
 		i.NoPath("R1", p.Call("tsdb:Head.loadWAL"), wr)
 		i.Only("R1", wr, "happens under EnableFastStartup", func(l eng.Loc) bool { return i.UnderCond(l, "EnableFastStartup") })
+		// the state file also covers series that were evicted before the snapshot was taken, so it is consulted whether or not a snapshot was loaded
+		i.Only("R1", wr, "does not depend on snapshotLoaded", func(l eng.Loc) bool { return !i.UnderAnyArm(l, "snapshotLoaded") })
+		// … and only raises it: a memory snapshot loaded earlier in Init may already have restored a higher id (finding F10, repaired)
+		i.Only("R1", wr, "is a Store guarded by lastSeriesID.Load() < x (only raised)", func(l eng.Loc) bool {
+			return eng.CallMethodName(l) == "Store" && i.UnderCond(l, "lastSeriesID.Load()", "<")
+		})
 	}
 	c.WritersSubset("R1", "tsdb:memSeries.ref", 1, "tsdb:newMemSeries")
 	c.CallersSubset("R1", "tsdb:newMemSeries", 1, "tsdb:Head.getOrCreateWithOptionalID")
